@@ -62,6 +62,15 @@ Proof.
     repeat split; cbn; auto. intros k E; injection E as <-; reflexivity.
   - destruct (b_classes b) eqn:E; try exact H. destruct H as (H1 & H2 & H3 & H4 & H5).
     repeat split; cbn; auto. intros c E'; injection E' as <-; reflexivity.
+  - destruct H as (H1 & H2 & H3 & H4 & H5).
+    assert (forall k, match b_kwargs b with Some k0 => k0 | None => v_kw v end = k -> k = v_kw v) as HK.
+    { intros k <-. destruct (b_kwargs b) as [k0|] eqn:Ek; [apply H4; reflexivity|reflexivity]. }
+    destruct (b_classes b) as [| |c] eqn:E; cbn.
+    + unfold coh; rewrite E; repeat split; auto; intros; discriminate.
+    + unfold coh; cbn; repeat split; auto; intros x E'; injection E' as E';
+        first [apply HK, E' | subst; first [reflexivity | apply H5; reflexivity]].
+    + unfold coh; cbn; repeat split; auto; intros x E'; injection E' as E';
+        first [apply HK, E' | subst; first [reflexivity | apply H5; reflexivity]].
 Qed.
 
 Lemma update_spectral_shape d b : same_shape b (fst (update_spectral d b)).
@@ -81,6 +90,7 @@ Proof.
     pose proof (update_spectral_shape (v_d v) b) as U. destruct (update_spectral (v_d v) b); exact U.
   - destruct (b_kwargs b); split; cbn; tauto.
   - destruct (b_classes b) eqn:E; split; cbn; try tauto. rewrite E. split; discriminate.
+  - destruct (b_classes b) eqn:E; split; cbn; try tauto; rewrite ?E; split; discriminate.
 Qed.
 
 (* when the hook does not raise, what a getter returns depends only on the current parameters,
@@ -92,6 +102,7 @@ Definition answer (v : view) (g : gop) (missing : bool) : out :=
   | GetBins => out_z (d_bins (v_d v))
   | GetKwargs => OKw (v_kw v)
   | GetClasses => if missing then OErr ErrAttribute else OCl (v_cl v)
+  | CreatePipelines => if missing then OErr ErrAttribute else OPipes (combine (v_cl v) (v_kw v))
   end.
 
 Definition is_missing (b : base) : bool := match b_classes b with Missing => true | _ => false end.
@@ -108,6 +119,9 @@ Proof.
   - destruct (b_kwargs b) as [k|] eqn:E; cbn; [rewrite (H4 _ eq_refl)|]; reflexivity.
   - unfold is_missing. destruct (b_classes b) as [| |c] eqn:E; cbn; [reflexivity|reflexivity|].
     rewrite (H5 _ eq_refl); reflexivity.
+  - unfold is_missing. destruct (b_classes b) as [| |c] eqn:E; cbn; [reflexivity| |].
+    + destruct (b_kwargs b) as [k|] eqn:Ek; [rewrite (H4 _ eq_refl)|]; reflexivity.
+    + rewrite (H5 _ eq_refl). destruct (b_kwargs b) as [k|] eqn:Ek; [rewrite (H4 _ eq_refl)|]; reflexivity.
 Qed.
 
 Lemma same_shape_missing b1 b2 : same_shape b1 b2 -> is_missing b1 = is_missing b2.
